@@ -26,4 +26,27 @@ PROPS = {
         "theorems": ["offset_exact_or_overflow", "durationSince_exact_or_overflow", "ext_eq_by_value"],
         "assumptions": ["extension values are read from the Debug form of the private structs (Decimal{value}, IPAddr{addr,prefix}, DateTime{epoch}, Duration{ms})"],
     },
+    "C20": {
+        "streams": [("c20", 16000, 3000000)],
+        "definitional": False,
+        "rule": "documents = valid policies/templates/expressions/EST JSON/schemas (both syntaxes)/entities/contexts/FFI calls/protobuf bytes "
+                "generated from the C01/C02 generators and fixed schemas, then (6%) left valid, (11%) nested 1..48 deep (parentheses, unary operators, "
+                "sets, records, conditionals, calls, JSON arrays/objects, schema types), (8%) random bytes/tokens, (75%) 1-5 stacked byte/char/token/"
+                "structure-aware mutations (bit flip, byte insert/delete/replace, chunk delete/dup, truncation, multi-byte char insert, token delete/dup/"
+                "swap/replace/insert from a grammar dictionary, splice of another document, nest-wrap, boundary numerals, odd string escapes, JSON node "
+                "replacement/key rename/duplicate key); every document goes to all entry points of its family (1 in 12 to ALL entry points), raw bytes "
+                "incl. invalid UTF-8 to the *_file and protobuf APIs; whatever parses runs print/to_json/format/validate/authorize/link/encode; every "
+                "error and warning is rendered (Display, Debug, help, labels read back, related, 3 miette handlers, Report). non-trivial = a mutated "
+                "document that produced a rendered labelled span or still parsed and ran a downstream stage; distinct by family+bytes. "
+                "Request lines = `like` boundary cases (all patterns over {a,b,*} up to length 4 x all texts up to length 4, plus random) against "
+                "the index-form mirror whose reply carries `panic:<site>` / `fuel` outcomes",
+        "theorems": ["no_panic_wildcard", "wmIdx_eq_M"],
+        "assumptions": [
+            "theorems cover the mirrored components only (wildcard_match, contains_at_least_two, the datetime/duration capture unwraps); for every "
+            "other entry point the evidence is 'no panic on the explored inputs', counted per entry point in coverage.distribution (ep.<name>.tried/ok/err)",
+            "nesting depth <= 48; level validation is skipped for documents with more than 10 conditionals and FFI format calls with |width| > 100000 "
+            "are skipped (both behaviours are reported separately as known findings by dedicated probes)",
+            "aborts (stack overflow, allocation failure) and hangs are detected per child process and attributed to the case via a progress file",
+        ],
+    },
 }
